@@ -205,6 +205,13 @@ func (c *Client) SendRaw(stream int16, kind, token string, raw []byte, msg messa
 	return req
 }
 
+// StopReading: the client stops reading from its socket; the proxy can write sndbuf more bytes
+// before its writes block.
+func (c *Client) StopReading(sndbuf int) {
+	c.Link.SetNoRead(true, sndbuf)
+	c.w.Logf("%s: STOPS READING (send buffer %d)", c, sndbuf)
+}
+
 // Disconnect closes the client's side (FIN after pending bytes).
 func (c *Client) Disconnect() {
 	if c.Gone {
